@@ -156,3 +156,75 @@ theorem applySingle_eq_gateSpec (arr : Array K) (n q : Nat) (m : Mat2 K)
 
 end
 end BlochVerif.Sim
+
+namespace BlochVerif.Sim
+
+/-- adding `2^q` to a number whose bit `q` is clear is flipping that bit -/
+theorem add_two_pow_eq_xor (k q : Nat) (h : k.testBit q = false) : k + 2 ^ q = k ^^^ 2 ^ q := by
+  have hk : k = 2 ^ (q + 1) * (k / 2 ^ (q + 1)) + k % 2 ^ (q + 1) := (Nat.div_add_mod _ _).symm
+  generalize ha : k / 2 ^ (q + 1) = a at hk
+  generalize hb : k % 2 ^ (q + 1) = b at hk
+  have hb1 : b < 2 ^ (q + 1) := by rw [← hb]; exact Nat.mod_lt _ (Nat.two_pow_pos _)
+  have hbq : b.testBit q = false := by
+    rw [← hb, Nat.testBit_mod_two_pow]; simp [h]
+  have hb2 : b < 2 ^ q := by
+    apply Nat.lt_pow_two_of_testBit
+    intro i hi
+    by_cases e : i = q
+    · subst e; exact hbq
+    · exact Nat.testBit_lt_two_pow (Nat.lt_of_lt_of_le hb1 (Nat.pow_le_pow_right (by omega) (by omega)))
+  have e1 : 2 ^ q + b = 2 ^ q ||| b := by
+    have := Nat.two_pow_add_eq_or_of_lt hb2 1
+    simpa using this
+  have hlt : 2 ^ q + b < 2 ^ (q + 1) := by rw [Nat.pow_succ]; omega
+  have e2 : 2 ^ (q + 1) * a + (2 ^ q + b) = 2 ^ (q + 1) * a ||| (2 ^ q + b) :=
+    Nat.two_pow_add_eq_or_of_lt hlt a
+  have e3 : 2 ^ (q + 1) * a + b = 2 ^ (q + 1) * a ||| b := Nat.two_pow_add_eq_or_of_lt hb1 a
+  have lhs : k + 2 ^ q = 2 ^ (q + 1) * a ||| (2 ^ q ||| b) := by
+    rw [← e1, ← e2, hk]; omega
+  rw [lhs]
+  apply Nat.eq_of_testBit_eq
+  intro i
+  rw [Nat.testBit_xor, Nat.testBit_or, Nat.testBit_or, Nat.testBit_two_pow]
+  have hki : k.testBit i = ((2 ^ (q + 1) * a).testBit i || b.testBit i) := by
+    rw [← Nat.testBit_or, ← e3, ← hk]
+  rw [hki]
+  by_cases e : q = i
+  · subst e
+    have : (2 ^ (q + 1) * a).testBit q = false := by
+      rw [Nat.mul_comm, Nat.testBit_mul_two_pow]; simp
+      intro h; omega
+    simp [this, hbq]
+  · simp [e]
+
+theorem sub_two_pow_eq_xor (k q : Nat) (h : k.testBit q = true) : k - 2 ^ q = k ^^^ 2 ^ q := by
+  have hge : 2 ^ q ≤ k := Nat.ge_two_pow_of_testBit h
+  have hclr : (k - 2 ^ q).testBit q = false := by
+    have := Nat.testBit_two_pow_add_eq (k - 2 ^ q) q
+    rw [show 2 ^ q + (k - 2 ^ q) = k by omega, h] at this
+    cases hh : (k - 2 ^ q).testBit q with
+    | false => rfl
+    | true => rw [hh] at this; simp at this
+  have e := add_two_pow_eq_xor (k - 2 ^ q) q hclr
+  rw [show k - 2 ^ q + 2 ^ q = k by omega] at e
+  calc k - 2 ^ q = ((k - 2 ^ q) ^^^ 2 ^ q) ^^^ 2 ^ q := by
+        rw [Nat.xor_assoc, Nat.xor_self, Nat.xor_zero]
+    _ = k ^^^ 2 ^ q := by rw [← e]
+
+section
+variable {K : Type} [Add K] [Mul K]
+
+/-- the same specification with the partner index written as a bit flip -/
+def gateSpecX (ψ : Nat → K) (q : Nat) (m : Mat2 K) (k : Nat) : K :=
+  if k.testBit q then m.c * ψ (k ^^^ 2 ^ q) + m.d * ψ k
+  else m.a * ψ k + m.b * ψ (k ^^^ 2 ^ q)
+
+theorem gateSpec_eq_gateSpecX (ψ : Nat → K) (q : Nat) (m : Mat2 K) (k : Nat) :
+    gateSpec ψ q m k = gateSpecX ψ q m k := by
+  unfold gateSpec gateSpecX
+  cases h : k.testBit q
+  · simp [add_two_pow_eq_xor k q h]
+  · simp [sub_two_pow_eq_xor k q h]
+
+end
+end BlochVerif.Sim
